@@ -148,7 +148,7 @@ def _text_for(seed: int, idx: int):
     rng = random.Random(f"c09:{seed}:texts:{idx}")
     r = rng.random()
     if r < 0.06:
-        s = rng.choice(["", " ", "  ", "\n", " \n ", "\n\n", "a ", " a", "a\n", "\na", "a  b", "日", "​", "́", "a\n\n\nb"])
+        s = rng.choice(["", " ", "  ", "\n", " \n ", "\n\n", "a ", " a", "a\n", "\na", "a  b", "\u65e5", "\u200b", "\u0301", "a\n\n\nb"])
         base: T.Desc = {"t": "Text", "s": s}
     elif r < 0.8:
         base = T.gen_text(rng)
@@ -190,8 +190,8 @@ def _work(job) -> Dict[str, Any]:
                 out["evals"] += 1
                 if nontrivial:
                     out["pairs"].add((sig, T.width_class(w, sm)))
-                found += [(w, f) for f in text_failures(d, r, w, counts)]
-                found += [(w, f) for f in tree_failures(d, r, w, pool, cache, counts) if f[0] != "c09.raised" or w < 1]
+                found += [(w, f) for f in tree_failures(d, r, w, pool, cache, counts)]
+                found += [(w, f) for f in text_failures(d, r, w, counts) if f[0] != "c09.raised"]  # (a raise is reported once)
             out["evals"] += 1
             found += [(widest_line(s), f) for f in text_nowrap_failure(d, r, counts)]
         else:
